@@ -70,6 +70,8 @@ func condPos(b *ssa.BasicBlock, in *ssa.If) token.Pos {
 type Path struct {
 	Events []Event
 	Ret    []*Term
+	// RetVal: for results that point to a local cell (&T{...}), the struct value at return time.
+	RetVal []*Term
 	Panic  bool
 }
 
@@ -208,7 +210,15 @@ func Enumerate(w *World, fn *ssa.Function, o Opts, visit func(*Path) bool) (npat
 		fr.env[fv] = &Term{Op: "free", Name: fv.Name(), Typ: fv.Type()}
 	}
 	fr.ret = func(res []*Term) {
-		e.finish(&Path{Ret: res})
+		p := &Path{Ret: res}
+		for _, r := range res {
+			if r.Op == "addr" {
+				p.RetVal = append(p.RetVal, e.load(r.Args[0], nil))
+			} else {
+				p.RetVal = append(p.RetVal, r)
+			}
+		}
+		e.finish(p)
 	}
 	e.stack = []*frame{fr}
 	e.runBlock(fr, fn.Blocks[0], nil)
@@ -297,7 +307,7 @@ func (e *engine) runFrom(fr *frame, b *ssa.BasicBlock, i int) {
 		case *ssa.Return:
 			var res []*Term
 			for _, r := range in.Results {
-				res = append(res, e.val(fr, r))
+				res = append(res, e.filled(e.val(fr, r)))
 			}
 			fr.ret(res)
 			return
@@ -512,8 +522,11 @@ func (e *engine) eval(fr *frame, in ssa.Value) *Term {
 		var base *Term
 		if x.Op == "addr" {
 			base = x.Args[0] // pointer to array
-		} else if x.Op == "slice" && x.Plc != nil && x.Args[1] == nil {
+		} else if x.Op == "slice" && x.Plc != nil {
 			base = x.Plc
+			if x.Off != nil {
+				idx = binop(token.ADD, x.Off, idx, types.Typ[types.Int])
+			}
 		} else {
 			base = &Term{Op: "deref", Args: []*Term{x}}
 		}
@@ -613,7 +626,18 @@ func (e *engine) eval(fr *frame, in ssa.Value) *Term {
 		}
 		if x.Op == "addr" { // slicing an array through its address
 			pl := x.Args[0]
-			return &Term{Op: "slice", Args: []*Term{e.load(pl, nil), lo, hi, mx}, Plc: pl, Typ: in.Type()}
+			return &Term{Op: "slice", Args: []*Term{e.load(pl, nil), lo, hi, mx}, Plc: pl, Off: lo, Typ: in.Type()}
+		}
+		if x.Op == "slice" && x.Plc != nil { // re-slicing keeps the aliasing information
+			off := x.Off
+			if lo != nil {
+				if off == nil {
+					off = lo
+				} else {
+					off = binop(token.ADD, off, lo, types.Typ[types.Int])
+				}
+			}
+			return &Term{Op: "slice", Args: []*Term{x, lo, hi, mx}, Plc: x.Plc, Off: off, Typ: in.Type()}
 		}
 		return &Term{Op: "slice", Args: []*Term{x, lo, hi, mx}, Typ: in.Type()}
 	case *ssa.Phi:
@@ -816,6 +840,9 @@ func (e *engine) narrow(atom *Term, pol bool) bool {
 		if isUnsigned(t.Typ) || (t.Op == "call" && t.Name == "builtin.len") {
 			iv.lo, iv.hasLo = 0, true
 		}
+		if t.Op == "call" && t.Name == "bytes.Compare" { // documented range {-1,0,1}
+			iv.lo, iv.hasLo, iv.hi, iv.hasHi = -1, true, 1, true
+		}
 	}
 	old, had := iv, ok
 	iv.ne = append([]int64(nil), iv.ne...)
@@ -953,6 +980,11 @@ func (e *engine) doCall(fr *frame, site ssa.Instruction, c *ssa.CallCommon, preF
 
 	// builtins
 	if b, ok := c.Value.(*ssa.Builtin); ok && !c.IsInvoke() {
+		if b.Name() != "copy" {
+			for i, a := range args {
+				args[i] = e.filled(a)
+			}
+		}
 		cont(e.builtin(fr, site, b.Name(), args, resT))
 		return
 	}
@@ -999,6 +1031,9 @@ func (e *engine) doCall(fr *frame, site ssa.Instruction, c *ssa.CallCommon, preF
 		return
 	}
 
+	for i, a := range args {
+		args[i] = e.filled(a)
+	}
 	pure := isPure(name) || (e.o.PureFns != nil && e.o.PureFns(name))
 	callT := &Term{Op: "call", Name: name, Args: args, Typ: resT, Site: site}
 	if !pure {
@@ -1016,6 +1051,35 @@ func (e *engine) doCall(fr *frame, site ssa.Instruction, c *ssa.CallCommon, preF
 		return
 	}
 	e.afterOpaque(fr, ev, args, cont)
+}
+
+// filled: a made slice whose elements were written through index stores /
+// copy is handed to callees together with its content (E8 needs it).
+func (e *engine) filled(t *Term) *Term {
+	if t == nil {
+		return t
+	}
+	if t.Op == "make" && t.Name == "slice" {
+		if c, ok := e.mem[rootKey(&Term{Op: "deref", Args: []*Term{t}})]; ok {
+			return &Term{Op: "filled", Args: []*Term{t, c}, Typ: t.Typ}
+		}
+	}
+	if t.Op == "slice" && t.Plc != nil {
+		// refresh the snapshot of the aliased array at the point of use
+		inner := t
+		var chain []*Term
+		for inner.Op == "slice" && inner.Args[0].Op == "slice" && inner.Args[0].Plc != nil {
+			chain = append(chain, inner)
+			inner = inner.Args[0]
+		}
+		cur := &Term{Op: "slice", Args: []*Term{e.load(inner.Plc, nil), inner.Args[1], inner.Args[2], inner.Args[3]}, Plc: inner.Plc, Off: inner.Off, Typ: inner.Typ}
+		for i := len(chain) - 1; i >= 0; i-- {
+			c := chain[i]
+			cur = &Term{Op: "slice", Args: []*Term{cur, c.Args[1], c.Args[2], c.Args[3]}, Plc: c.Plc, Off: c.Off, Typ: c.Typ}
+		}
+		return cur
+	}
+	return t
 }
 
 func (e *engine) afterOpaque(fr *frame, ev Event, args []*Term, cont func(*Term)) {
@@ -1091,8 +1155,21 @@ func (e *engine) builtin(fr *frame, site ssa.Instruction, name string, args []*T
 		ct := &Term{Op: "call", Name: "builtin.copy", Args: args, ID: e.newID(), Typ: resT, Site: site}
 		e.emit(Event{Kind: EvCall, Call: ct, Res: ct, Instr: site, Fn: fr.fn, Depth: fr.depth})
 		if dst := args[0]; dst.Op == "slice" && dst.Plc != nil {
-			// write-through into a local array: model as whole-range overwrite
-			e.writePlace(dst.Plc, &Term{Op: "opaque", Name: "copied", Args: []*Term{dst.Args[0], args[1], orNil(dst.Args[1])}, Typ: dst.Plc.Typ})
+			// write-through into a local array: copied(previous content, source, offset)
+			e.writePlace(dst.Plc, &Term{Op: "opaque", Name: "copied", Args: []*Term{e.load(dst.Plc, nil), e.filled(args[1]), orNil(dst.Off)}, Typ: dst.Plc.Typ})
+		} else {
+			base, lo := dst, (*Term)(nil)
+			if dst.Op == "slice" {
+				base, lo = dst.Args[0], dst.Args[1]
+			}
+			if base.Op == "make" && base.Name == "slice" {
+				root := &Term{Op: "deref", Args: []*Term{base}}
+				cur, ok := e.mem[rootKey(root)]
+				if !ok {
+					cur = root
+				}
+				e.setMem(rootKey(root), &Term{Op: "opaque", Name: "copied", Args: []*Term{cur, args[1], orNil(lo)}, Typ: base.Typ})
+			}
 		}
 		return ct
 	case "delete":
